@@ -95,26 +95,35 @@ def precedence(ctx, rule='P4'):
                     ctx.inst(rule, str(kind), not ws, '%s chunk %s parse_info.palette' % (kind, 'does not write' if not ws else 'WRITES'),
                              pf.blocks[s]['term'].get('span'), key='%s|%s|%s' % (pf.name, rule, kind), nontrivial=False)
             ctx.floor('palette writers', total, 3)
+            # .. and nothing else in the crate assigns ParseInfo.palette: a palette that did not come from a palette chunk (seed C11-i: a
+            # fallback all-black palette for indexed sprites without one) makes "indexed pixels but no palette" loadable
+            in_arms = set()
+            for kind, s, reg, sw in arms:
+                if kind in ('Palette', 'OldPalette04', 'OldPalette11'):
+                    in_arms |= set(reg)
+            for body in fx.bodies:
+                if body.kind == 'promoted':
+                    continue
+                for bi, blk in enumerate(body.blocks):
+                    if blk['cleanup'] or bi not in body.cfg.reach:
+                        continue
+                    for st in blk['stmts']:
+                        if st['k'] != 'assign' or not st['p']['p']:
+                            continue
+                        last = st['p']['p'][-1]
+                        if last.get('k') == 'field' and last.get('n') == 'palette' and 'ParseInfo' in str(body.locals[st['p']['l']]['ty']) and \
+                                'Validated' not in str(body.locals[st['p']['l']]['ty']):
+                            okw = body.name == pf.name and bi in in_arms
+                            ctx.inst(rule, 'palette writer in ' + body.name.split('asefile::')[-1], okw, '%s assigns ParseInfo.palette %s' % (
+                                body.name.split('asefile::')[-1], 'inside a palette chunk arm' if okw else 'OUTSIDE the three palette chunk arms: a palette that no chunk supplied'),
+                                st.get('span'), key=ctx.key(body.name, rule, 'writer', ''))
 
 
-def run(ctx):
+def decoders(ctx):
+    """L1 / P1 / P2 / P3: the three palette decoders against the spec layout, entry ids, legacy packet offsets, 6-bit scaling.
+    Also run by C01 (palette entries are part of "what the file encodes") through a rule-renaming view of its context."""
     fx = ctx.fx
     spec = SP.load_spec()
-    ctx.rules = ['L1 layouts', 'P1 new palette ids/values', 'P2 legacy packets', 'P3 04/11 sibling difference', 'P4 precedence',
-                 'P5 index validation must-pass-through', 'P6 accessors']
-    ctx.assumptions.append('tables/spec_layout.json transcribes the palette chunk layouts correctly')
-    ctx.explanation = (
-        'Static check of the three palette decoders and the index validation. Layouts (new palette, both legacy kinds) are '
-        'compared with the spec table by path enumeration; provenance shows entry id = first + loop index and the entry is '
-        'inserted under that key with rgba8 in read order; for legacy chunks the running offset is loop-carried across packets '
-        '(initialised once outside the packet loop), count byte 0 is replaced by 256 under the count==0 test, alpha is the '
-        'constant 255; the 0x0004 and 0x0011 decoders are siblings that differ exactly in passing each component through '
-        'scale_6bit_to_8bit (which rejects >= 64). Effects on ParseInfo.palette give precedence: Palette assigns '
-        'unconditionally, legacy arms only under palette.is_none(), no other writer. Every Pixels::Indexed construction is '
-        'dominated by a successful validate_indexed_pixels on the same data under Some(palette) (None -> Err), the validator '
-        'scans the whole slice, and both cel and tileset pixels reach AsepriteFile only through RawPixels::validate. '
-        'The two scaling end points the property names (0 -> 0, 63 -> 255) are decided by constant propagation through the result term; '
-        'the mapping of the other 62 values is not part of the statement. Not decided: IntMap semantics.')
     bindings = {}
     for fn in (PAL + 'parse_chunk', PAL + 'parse_old_chunk_04', PAL + 'parse_old_chunk_11'):
         bnd, _ = layout.check_layout(ctx, spec, fn, spec['decoders'][fn])
@@ -267,6 +276,28 @@ def run(ctx):
                 continue
             ctx.inst('P3', 'scale#%d' % arg, got == want, 'scale_6bit_to_8bit: constant %d propagates to %d through %s; the property demands %d'
                      % (arg, got, show(rt)[:80], want), sc.span, key=sc.name + '|P3|endpoint-%d' % arg)
+
+
+
+def run(ctx):
+    fx = ctx.fx
+    spec = SP.load_spec()
+    ctx.rules = ['L1 layouts', 'P1 new palette ids/values', 'P2 legacy packets', 'P3 04/11 sibling difference', 'P4 precedence',
+                 'P5 index validation must-pass-through', 'P6 accessors']
+    ctx.assumptions.append('tables/spec_layout.json transcribes the palette chunk layouts correctly')
+    ctx.explanation = (
+        'Static check of the three palette decoders and the index validation. Layouts (new palette, both legacy kinds) are '
+        'compared with the spec table by path enumeration; provenance shows entry id = first + loop index and the entry is '
+        'inserted under that key with rgba8 in read order; for legacy chunks the running offset is loop-carried across packets '
+        '(initialised once outside the packet loop), count byte 0 is replaced by 256 under the count==0 test, alpha is the '
+        'constant 255; the 0x0004 and 0x0011 decoders are siblings that differ exactly in passing each component through '
+        'scale_6bit_to_8bit (which rejects >= 64). Effects on ParseInfo.palette give precedence: Palette assigns '
+        'unconditionally, legacy arms only under palette.is_none(), no other writer. Every Pixels::Indexed construction is '
+        'dominated by a successful validate_indexed_pixels on the same data under Some(palette) (None -> Err), the validator '
+        'scans the whole slice, and both cel and tileset pixels reach AsepriteFile only through RawPixels::validate. '
+        'The two scaling end points the property names (0 -> 0, 63 -> 255) are decided by constant propagation through the result term; '
+        'the mapping of the other 62 values is not part of the statement. Not decided: IntMap semantics.')
+    decoders(ctx)
 
     precedence(ctx)
     # palette reaches the file unchanged
